@@ -15,12 +15,25 @@ import (
 type freshAn struct {
 	fn   *ssa.Function
 	busy map[ssa.Value]bool
+	// chain: values being decided further up, across functions (a helper that appends to its parameter and returns it,
+	// called in a loop on its own result): taken optimistically, like a cycle through a phi
+	chain map[ssa.Value]bool
+	depth int
 	// freshFree reports free variables known to hold fresh memory of the enclosing function.
 	freshFree func(*ssa.FreeVar) bool
 }
 
 func newFresh(fn *ssa.Function) *freshAn {
-	return &freshAn{fn: fn, busy: map[ssa.Value]bool{}}
+	return &freshAn{fn: fn, busy: map[ssa.Value]bool{}, chain: map[ssa.Value]bool{}}
+}
+
+// sub: the analysis of another function on behalf of this one.
+func (a *freshAn) sub(fn *ssa.Function) *freshAn {
+	s := &freshAn{fn: fn, busy: map[ssa.Value]bool{}, chain: a.chain, depth: a.depth + 1}
+	if fn.Parent() != nil {
+		s.freshFree = func(fv *ssa.FreeVar) bool { return freeVarFresh(fn, fv) }
+	}
+	return s
 }
 
 // cloneLike lists callees whose result is freshly allocated whatever the arguments.
@@ -29,11 +42,13 @@ var cloneLike = map[string]bool{
 }
 
 func (a *freshAn) fresh(v ssa.Value) bool {
-	if a.busy[v] {
+	if a.busy[v] || a.chain[v] {
 		return true
 	}
 	a.busy[v] = true
+	a.chain[v] = true
 	defer delete(a.busy, v)
+	defer delete(a.chain, v)
 	switch v := v.(type) {
 	case *ssa.Alloc, *ssa.MakeSlice, *ssa.MakeMap, *ssa.MakeClosure, *ssa.MakeChan:
 		return true
@@ -65,6 +80,15 @@ func (a *freshAn) fresh(v ssa.Value) bool {
 			strings.HasPrefix(n, "unicode/utf16.Append") || strings.HasPrefix(n, "fmt.Append") || n == "slices.Grow" || n == "slices.Insert" || n == "slices.AppendSeq") {
 			return a.fresh(v.Call.Args[0])
 		}
+		// a helper of the repository: fresh when every return hands out memory that is fresh in the helper (its own
+		// allocation, or an accumulator parameter that is fresh at every call site)
+		if callee := v.Call.StaticCallee(); callee != nil && len(callee.Blocks) > 0 && a.depth < 3 {
+			if pp := programOf(callee.Prog); pp != nil && pp.IsRepo(callee) {
+				if _, isTuple := v.Type().(*types.Tuple); !isTuple {
+					return a.returnsFresh(callee, 0)
+				}
+			}
+		}
 		return false
 	case *ssa.UnOp:
 		if v.Op != token.MUL {
@@ -86,6 +110,13 @@ func (a *freshAn) fresh(v ssa.Value) bool {
 	case *ssa.TypeAssert:
 		return a.fresh(v.X)
 	case *ssa.Extract:
+		if c, ok := v.Tuple.(*ssa.Call); ok {
+			if callee := c.Call.StaticCallee(); callee != nil && len(callee.Blocks) > 0 && a.depth < 3 && builtinName(&c.Call) == "" {
+				if pp := programOf(callee.Prog); pp != nil && pp.IsRepo(callee) {
+					return a.returnsFresh(callee, v.Index)
+				}
+			}
+		}
 		return a.fresh(v.Tuple)
 	case *ssa.Lookup:
 		if mm, ok := v.X.(*ssa.MakeMap); ok {
@@ -106,8 +137,67 @@ func (a *freshAn) fresh(v ssa.Value) bool {
 			return a.freshFree(v)
 		}
 		return false
+	case *ssa.Parameter:
+		return a.freshAtCallers(v)
 	}
 	return false
+}
+
+func (a *freshAn) returnsFresh(callee *ssa.Function, k int) bool {
+	rets := returnsOf(callee)
+	if len(rets) == 0 {
+		return false
+	}
+	sa := a.sub(callee)
+	for _, ret := range rets {
+		if k >= len(ret.Results) {
+			return false
+		}
+		if c, ok := ret.Results[k].(*ssa.Const); ok && c.IsNil() {
+			continue
+		}
+		if !sa.fresh(ret.Results[k]) {
+			return false
+		}
+	}
+	return true
+}
+
+// freshAtCallers: a slice or map parameter of an unexported function is as good as memory of the current call when
+// every static call site hands in memory that is fresh in the caller (an accumulator a helper appends to and returns).
+func (a *freshAn) freshAtCallers(prm *ssa.Parameter) bool {
+	fn := prm.Parent()
+	if fn == nil || a.depth > 2 {
+		return false
+	}
+	switch prm.Type().Underlying().(type) {
+	case *types.Slice, *types.Map:
+	default:
+		return false
+	}
+	if obj := fn.Object(); obj == nil || obj.Exported() {
+		return false
+	}
+	idx := -1
+	for i, q := range fn.Params {
+		if q == prm {
+			idx = i
+		}
+	}
+	sites := callSitesOf(fn)
+	if idx < 0 || len(sites) == 0 {
+		return false
+	}
+	for _, s := range sites {
+		args := s.Common().Args
+		if s.Common().IsInvoke() || idx >= len(args) || s.Parent() == fn {
+			return false
+		}
+		if !a.sub(s.Parent()).fresh(args[idx]) {
+			return false
+		}
+	}
+	return true
 }
 
 func (a *freshAn) allocStoresFresh(al *ssa.Alloc) bool {
